@@ -126,22 +126,25 @@ def r_last_output_order(ctx):
                           f"(must be False: an answer remembered from another job infers completion too early)")
         else:
             ctx.ok(rid, loc(fi), "no answer is carried over between jobs that reuse a task name")
-    # the runner side of the contract: outputs are key-sorted before publication
+    # the runner side of the contract: the outputs are stored (hence published) in plain key order — observed on the runner itself, wherever
+    # the ordering is computed (in run, or in the context the worker builds for it)
+    from .C10 import _explore_run, _task
+    from ..stmts import _ConcreteIter
     run = repo.func("cascade.executor.runner.runner.run")
-    sorts = [n for n in walk_scope(run.node) if isinstance(n, ast.Call) and (
-        (isinstance(n.func, ast.Attribute) and n.func.attr == "sort") or (isinstance(n.func, ast.Name) and n.func.id == "sorted"))]
-    if not sorts:
-        ctx.violation(rid, run.qual, loc(run), "runner output order",
-                      "runner.run no longer sorts the declared outputs by key before binding yielded values; "
-                      "is_last_output_of (key-sorted) and the lowering contract assume that order")
-    else:
-        plain = [s for s in sorts if not any(k.arg in ("key", "reverse") for k in s.keywords)]
-        if not plain:
-            ctx.violation(rid, run.qual, loc(run, sorts[0]), "runner output order",
-                          "runner.run orders outputs with a custom key/reverse; is_last_output_of uses plain key order")
+    for outs, order in ((("b", "a", "c"), ["a", "b", "c"]), (("10", "9", "2"), ["10", "2", "9"])):
+        paths, _calls = _explore_run(repo, _task({}, {}, outs), {}, set(), lambda: _ConcreteIter(["r0", "r1", "r2"]))
+        done = [p for p in paths if p.exit[0] == "return"]
+        if len(done) != 1:
+            ctx.undecided(rid, loc(run), f"runner.run on a task with outputs {outs}: {[p.exit[0] for p in paths]}")
+            continue
+        hs = [e.data["args"] for e in done[0].effects if is_call(e, qual="cascade.executor.runner.memory.Memory.handle")]
+        got = [getattr(a_[0], "fields", {}).get("output") for a_ in hs if a_]
+        if got != order:
+            ctx.violation(rid, run.qual, loc(run), "runner output order",
+                          f"outputs declared as {list(outs)}: the runner stores / publishes them in the order {got}; is_last_output_of infers completion from the greatest key in "
+                          f"plain key order ({order[-1]!r}), which must be the last one published")
         else:
-            ctx.ok(rid, loc(run, plain[0]), "runner orders declared outputs by plain key sort")
-
+            ctx.ok(rid, loc(run), f"runner publishes outputs {list(outs)} in plain key order {order}")
 
 def dsid(task, output="0"):
     """A DatasetId as the repo's own constructor would build it (structural equality)."""
